@@ -1,17 +1,19 @@
 #!/usr/bin/env python3
-"""usage: seedkeep.py <PID-of-agent> <k> <detected_by or '-'> <what I ran / note>
-copies /tmp/mut/results/<PID>/<k>/{patch.diff,demo.py,notes.md} to /verif/seeded/<PID>-<k>/ and writes meta.json"""
+"""usage: seedkeep.py <PID-of-agent> <k> <detected_by or '-'> <what I ran / note> [source root] [number to keep it under]
+copies <root>/<PID>/<k>/{patch.diff,demo.py,notes.md} (root default /tmp/mut/results) to /verif/seeded/<PID>-<number>/ and writes meta.json"""
 import json, os, shutil, subprocess, sys
 pid, k, det, note = sys.argv[1], sys.argv[2], sys.argv[3], sys.argv[4]
-src = f'/tmp/mut/results/{pid}/{k}'
-dst = f'/verif/seeded/{pid}-{k}'
+root = sys.argv[5] if len(sys.argv) > 5 else '/tmp/mut/results'
+num = sys.argv[6] if len(sys.argv) > 6 else k
+src = f'{root}/{pid}/{k}'
+dst = f'/verif/seeded/{pid}-{num}'
 os.makedirs(dst, exist_ok=True)
 for f in ('patch.diff', 'demo.py', 'notes.md'):
     shutil.copy(os.path.join(src, f), os.path.join(dst, f))
 notes = open(os.path.join(src, 'notes.md')).read()
 head = subprocess.run(['git', '-C', '/repo', 'rev-parse', '--short', 'HEAD'], capture_output=True, text=True).stdout.strip()
 meta = dict(
-    id=f'{pid}-{k}', breaks_property=pid, written_for_property=pid,
+    id=f'{pid}-{num}', breaks_property=pid, written_for_property=pid,
     needs_to_manifest=notes.strip().split('\n')[0:12],
     detected_by=[] if det == '-' else det.split(','),
     verified=dict(repo_head_when_verified=head,
